@@ -154,6 +154,15 @@ func (p *parser) parseMessage() (ok bool) {
 
 	if t, ok := p.accept(tokenTypeMessageName); ok {
 		msgName = t.val
+		for _, ch := range msgName {
+			// the lexer skips blanks, tabs and line breaks only; any other
+			// white space character ends up at the start of a name token
+			if unicode.IsSpace(ch) {
+				p.errorf(t, "message name cannot contain a whitespace character, found %q", t.val)
+				msgName = ""
+				break
+			}
+		}
 	}
 
 	dataItem, ok = p.parseMessageText()
